@@ -150,6 +150,8 @@ pub enum Tamper {
     C1Nudged,
     /// C1 off the curve, with C2/C3 forged consistently from the *library's* pairing value e(C1', de)
     C1OffCurveForged(u64),
+    /// like C1OffCurveForged with point #i of sm9util::g1_near_curve_points (on a neighbouring equation with one constant changed, boundary abscissas)
+    C1NearCurveForged(u16),
     Prefix(u8),
     /// x + p when it fits (non-canonical alias of the genuine C1)
     C1XPlusP,
@@ -207,13 +209,18 @@ pub fn check_tamper(c: &TCase) -> CaseResult {
             ct[33..65].copy_from_slice(&to32(&y));
             class = "C1-off-curve";
         }
-        Tamper::C1OffCurveForged(_) | Tamper::C1SpecialForged(_, _) => {
+        Tamper::C1OffCurveForged(_) | Tamper::C1SpecialForged(_, _) | Tamper::C1NearCurveForged(_) => {
             let (x, y) = match &c.tamper {
                 Tamper::C1SpecialForged(i, j) => {
                     let vals: Vec<BigUint> = vec![BigUint::from(0u32), BigUint::one(), pr.p - 1u32, BigUint::from(2u32), &pr.n % pr.p, BigUint::from(3u32)];
                     (vals[*i as usize % vals.len()].clone(), vals[*j as usize % vals.len()].clone())
                 }
                 Tamper::C1OffCurveForged(seed) => (from_be(&expand_bytes(*seed, 32)) % pr.p, from_be(&expand_bytes(seed ^ 0xf0, 32)) % pr.p),
+                Tamper::C1NearCurveForged(i) => {
+                    let pts = g1_near_curve_points();
+                    let (_, x, y) = &pts[*i as usize % pts.len()];
+                    (x.clone(), y.clone())
+                }
                 _ => unreachable!(),
             };
             let q = Some((r9::fp(&x), r9::fp(&y)));
@@ -359,6 +366,7 @@ pub fn tamper_strategy() -> impl Strategy<Value = Tamper> {
         1 => Just(Tamper::OtherIdentity),
         1 => Just(Tamper::C1Nudged),
         3 => any::<u64>().prop_map(Tamper::C1OffCurveForged),
+        2 => any::<u16>().prop_map(Tamper::C1NearCurveForged),
         2 => any::<u8>().prop_map(Tamper::Prefix),
         1 => Just(Tamper::C1XPlusP),
         1 => Just(Tamper::C1YPlusP),
@@ -467,6 +475,16 @@ pub fn run(ctx: &Ctx) {
     }, check_tamper);
 
     let nb2 = ctx.tier.pick(2usize, 16usize);
+    ctx.listed("c1_near_curve_points", "C1 replaced by every point of the G1 near-curve family — off y^2 = x^3 + 5 but on a neighbouring equation (b = 4, 6, 0, -5, 10, 5R, 5R^-1; a' = 1, -1, -3), abscissas 1..4, p-4..p-1 and those where the Montgomery image of x, x^2 or x^3 is within 6 of 0 or p, a power of two or 2^256-p — with C2/C3 forged for what the library's own pairing computes on that non-point: an invalid-curve forgery aimed at a membership test that is wrong in one constant, reduction or carry", move || {
+        let mut v = Vec::new();
+        for b in fixed_bases(seed ^ 0x4e, 1) {
+            for i in 0..g1_near_curve_points().len() {
+                v.push(TCase { base: b.clone(), tamper: Tamper::C1NearCurveForged(i as u16) });
+            }
+        }
+        v
+    }, check_tamper);
+
     ctx.exhaustive("truncations_prefixes_extensions", "every truncation length, every prefix byte, extensions by 1..4 and to beyond 352 bytes, other identity, nudged / x+p C1 — per base", move || {
         let mut v = Vec::new();
         for b in fixed_bases(seed ^ 0x55, nb2) {
